@@ -27,20 +27,26 @@ def main():
     meta = json.load(open(metas[0])) if metas else {}
     res = {"name": name, "agent_meta": meta}
     assert sh("git -C /repo status --porcelain -- xgi tests").stdout.strip() == "", "/repo not clean"
+    # a scratch worktree of /repo's HEAD (so that background runs that use /repo itself are not
+    # disturbed); the checks are pointed at it through XGI_SRC
+    scratch = "/tmp/seedcheck_wt"
+    sh(f"git -C /repo worktree remove --force {scratch}")
+    sh(f"git -C /repo worktree add --detach {scratch} HEAD")
     # demo without the patch
-    r0 = sh(f"cd /repo && /venv/bin/python {out}/demo.py")
-    sh(f"git -C /repo apply {out}/patch.diff")
+    r0 = sh(f"cd {scratch} && PYTHONPATH={scratch} /venv/bin/python {out}/demo.py")
+    ap = sh(f"git -C {scratch} apply {out}/patch.diff")
+    assert ap.returncode == 0, ap.stderr
     try:
-        r1 = sh(f"cd /repo && /venv/bin/python {out}/demo.py")
+        r1 = sh(f"cd {scratch} && PYTHONPATH={scratch} /venv/bin/python {out}/demo.py")
         res["demo_without_patch_exit"] = r0.returncode
         res["demo_with_patch_exit"] = r1.returncode
         res["demo_with_patch_tail"] = (r1.stdout + r1.stderr)[-400:]
-        bt = sh("/verif/tools/baseline_check.py")
+        bt = sh(f"REPO_DIR={scratch} /verif/tools/baseline_check.py")
         res["baseline_with_patch"] = bt.stdout.strip().splitlines()[-1] if bt.stdout.strip() else bt.stderr[-200:]
         res["baseline_ok"] = bt.returncode == 0
         res["checks"] = {}
         for p in props:
-            r = sh(f"cd /verif && timeout 900 ./check {p} --tier quick --no-evidence")
+            r = sh(f"cd /verif && XGI_SRC={scratch} timeout 900 ./check {p} --tier quick --no-evidence")
             vio = [l for l in r.stdout.splitlines() if l.startswith("VIOLATION")]
             detail = [l for l in r.stdout.splitlines() if l.strip().startswith("violation:")]
             res["checks"][p] = {"exit": r.returncode, "violations": len(vio), "first": (detail[0].strip()[:300] if detail else r.stdout[-200:])}
@@ -48,7 +54,8 @@ def main():
                 try: os.unlink(l.split("replay=",1)[1].strip())
                 except OSError: pass
     finally:
-        sh("git -C /repo checkout -- .")
+        sh(f"git -C /repo worktree remove --force {scratch}")
+        sh("git -C /repo worktree prune")
     assert sh("git -C /repo status --porcelain -- xgi tests").stdout.strip() == ""
     res["caught_by"] = [p for p, v in res.get("checks", {}).items() if v["exit"] == 1 and v["violations"]]
     res["confirmed"] = bool(res["demo_without_patch_exit"] == 0 and res["demo_with_patch_exit"] != 0 and res["baseline_ok"])
@@ -56,7 +63,8 @@ def main():
                "files": meta.get("files"), "origin": "independent sub-agent given only the property text and a scratch worktree",
                "what_i_ran": [f"demo.py on clean /repo -> exit {res['demo_without_patch_exit']}",
                               f"demo.py with patch.diff applied -> exit {res['demo_with_patch_exit']}",
-                              f"tools/baseline_check.py with patch applied -> {res['baseline_with_patch']}"] +
+                              f"tools/baseline_check.py with patch applied -> {res['baseline_with_patch']}",
+                              "(s01-s43: patch applied to /repo itself and reverted; later seeds: applied to a scratch git worktree of /repo HEAD, checks pointed at it with XGI_SRC)"] +
                              [f"./check {p} --tier quick with patch applied -> exit {v['exit']} ({v['first']})" for p, v in res.get('checks', {}).items()],
                "confirmed": res["confirmed"], "caught_by": res["caught_by"]}, open(f"{out}/meta.json", "w"), indent=1)
     print(json.dumps({k: res[k] for k in ("name", "confirmed", "caught_by", "demo_without_patch_exit", "demo_with_patch_exit", "baseline_with_patch")}))
